@@ -219,6 +219,87 @@ async def leaf_rules_scenario():
     return problems, 2 * len(LEAF_CASES)
 
 
+# Two schemas of one process define the SAME type names differently; the same operation text goes to both engines: each
+# coerces the variables by ITS schema's definitions (whatever is remembered about an operation belongs to one schema)
+TWIN_SDL_A = """
+input In { a: Int n: [Int!] }
+enum E { X Y }
+type Query { f(v: In): Int g(e: E): Int h(s: S): Int }
+scalar S
+"""
+TWIN_SDL_B = """
+input In { a: String n: [String!] b: Boolean! = true }
+enum E { Y Z }
+type Query { f(v: In): Int g(e: E): Int h(s: S): Int }
+scalar S
+"""
+TWIN_REQUESTS = [
+    # (operation text, variables, expectation on A, expectation on B); REFUSED or the value the resolver receives
+    ("query ($v: In) { f(v: $v) }", {"v": {"a": 1}}, {"a": 1}, REFUSED),
+    ("query ($v: In) { f(v: $v) }", {"v": {"a": "s"}}, REFUSED, {"a": "s", "b": True}),
+    ("query ($v: In) { f(v: $v) }", {"v": {"n": [1, 2]}}, {"n": [1, 2]}, REFUSED),
+    ("query ($v: In) { f(v: $v) }", {"v": {"n": "x"}}, REFUSED, {"n": ["x"], "b": True}),
+    ("query ($v: In) { f(v: $v) }", {"v": {"b": False}}, REFUSED, {"b": False}),
+    ("query ($e: E) { g(e: $e) }", {"e": "X"}, "X", REFUSED),
+    ("query ($e: E) { g(e: $e) }", {"e": "Z"}, REFUSED, "Z"),
+    ("query ($e: E) { g(e: $e) }", {"e": "Y"}, "Y", "Y"),
+    ("query ($s: S) { h(s: $s) }", {"s": "q"}, "A<q>", "B<q>"),
+]
+
+
+async def twin_schemas_scenario():
+    from tartiflette import create_engine, Resolver, Scalar
+    problems, n = [], 0
+    for order in ("AB", "BA"):
+        engines, got = {}, {}
+        for tag, sdl in (("A", TWIN_SDL_A), ("B", TWIN_SDL_B)):
+            name = fresh_schema_name("c04twin" + tag)
+
+            def reg(tag, name):
+                for fn in ("f", "g", "h"):
+                    def mk(fn):
+                        @Resolver("Query." + fn, schema_name=name)
+                        async def r(parent, args, ctx, info):
+                            got[tag] = args
+                            return 1
+                    mk(fn)
+
+                @Scalar("S", schema_name=name)
+                class S:          # pylint: disable=unused-variable
+                    def coerce_output(self, v):
+                        return v
+
+                    def coerce_input(self, v):
+                        return "%s<%s>" % (tag, v)
+
+                    def parse_literal(self, ast):
+                        return "%s<%s>" % (tag, ast.value)
+            reg(tag, name)
+            engines[tag] = await create_engine(sdl, schema_name=name)
+        for q, variables, want_a, want_b in TWIN_REQUESTS:
+            for tag in order:
+                want = want_a if tag == "A" else want_b
+                got.clear()
+                n += 1
+                try:
+                    resp = await engines[tag].execute(q, variables=variables)
+                except Exception as e:  # pylint: disable=broad-except
+                    resp = {"raised": repr(e)}
+                if want is REFUSED:
+                    ok = resp.get("data") is None and resp.get("errors") and not got
+                    exp = "refused before execution"
+                else:
+                    val = list(got.get(tag, {}).values())
+                    ok = not resp.get("errors") and val and _typed(val[0]) == _typed(want)
+                    exp = "resolver receives %r" % (_typed(want),)
+                if not ok:
+                    problems.append({"sdl": TWIN_SDL_A if tag == "A" else TWIN_SDL_B, "other_schema_of_the_process": TWIN_SDL_B
+                                     if tag == "A" else TWIN_SDL_A, "engines_asked_in_order": order, "query": q, "variables": variables,
+                                     "expected": exp, "resolver_received": {k: repr(v) for k, v in got.items()},
+                                     "response": repr(resp)[:600]})
+    return problems, n
+
+
 def main(tier_, replay=None):
     from . import engine_env
     rep = common.Report("C04")
@@ -255,6 +336,10 @@ def main(tier_, replay=None):
             spec_mm.append((s, cases[i], asts[i], runs[i]))
     leaf_problems, leaf_n = asyncio.run(leaf_rules_scenario())
     total += leaf_n
+    twin_problems, twin_n = asyncio.run(twin_schemas_scenario())
+    total += twin_n
+    for pr in twin_problems[:3]:
+        rep.violation(dict(pr, property="C04", kind="variables are not coerced by the definitions of the engine's own schema"))
     for pr in leaf_problems[:4]:
         rep.violation(dict(pr, property="C04", kind="a leaf value of a variable is not coerced by the scalar's input rule"))
     known = common.known_findings("C04")
@@ -263,7 +348,7 @@ def main(tier_, replay=None):
                        "sdl": gen.schema_sdl(s), "query": case[0], "variables": case[1],
                        "observed": observation(case, ast, run)[1],
                        "response": run["response"]})
-    if not spec_mm and not leaf_problems:
+    if not spec_mm and not leaf_problems and not twin_problems:
         if not proofs_ok:
             rep.violation({"property": "C04", "what": "proof obligation no longer checks",
                            "file": b.get("failed_file"), "theorem": b.get("failed_lemma"), "gate": gate,
